@@ -14,13 +14,13 @@ CHECKS = {
              text="Same history in one engine and with an engine+BuildDB restart before every build must give identical per-build traces; a fresh BuildDB reader is compared with the observer's shadow after every build (value, signature, epochs order, dependency order and flags) over hostile key/value bytes; 288 version scenarios; staged lock contests.",
              note="Restarts are in-process (new BuildEngine and new BuildDB on the same file); sqlite3 itself is trusted.", ref="4/C03"),
  "C05": dict(cat="exploration", tech="runtime monitor with cancellation injected at engine hook/callback steps (ASan) and from a foreign thread (TSan)",
-             text="cancelBuild() is issued from inside step s of build b for sampled (quick) or all (thorough) steps, then the history continues on the same engine after reset and on a new engine over the same DB with all monitors on; threaded variant under TSan.",
+             text="cancelBuild() is issued from inside step s of build b for sampled (quick) or all (thorough) steps, then the history continues on the same engine after reset and on a new engine over the same DB, each also after putting the external inputs back to their last successfully built state (A-B-A), with all monitors on; a template family (first-time discovery of a leaf in flight for a sibling) gets every step x all four continuations; threaded variant under TSan.",
              note="Steps = callbacks + three guarded hook notifications; instants inside an engine phase only via threads.", ref="4/C05"),
  "C06": dict(cat="exploration", tech="schedule enumeration at engine idle points (hooks) + ThreadSanitizer stress",
              text="Completion orders are enumerated (odometer over every scheduling choice, capped) per program/history and each must reproduce the synchronous run's values, executed sets and protocol; stalls are detected logically at the BeforeWait hook; racing workers under TSan.",
              note="Cap 120/2000 schedules per program; TSan sees only intercepted synchronisation.", ref="4/C06"),
  "C07": dict(cat="exploration", tech="runtime monitor: ground truth from least-fixpoint evaluator, reported cycle validated edge by edge; enumerated small digraphs",
-             text="Builds of keys whose evaluation requires a cycle must fail with one cycle report whose every edge is a real wait-for relation observed by the monitor; acyclic builds must neither report nor stall; random cyclic programs x histories x 3 schedules plus all digraphs on 3 keys ({absent,static,dynamic}) and 4 keys (static) in thorough.",
+             text="Builds of keys whose evaluation requires a cycle must fail with one cycle report whose every edge is a real wait-for relation observed by the monitor; acyclic builds must neither report nor stall; random cyclic programs x histories x 3 schedules tasks may report computed keys as discovered dependencies (cycles that exist only among rule scans of a later build); plus all digraphs on 3 keys ({absent,static,dynamic,discovered}) and 4 keys (static) in thorough.",
              note="Single-use edges excluded (the engine deliberately forgets them); ForceBuild cycle breaking opted in for 1/4 of cases.", ref="4/C07"),
  "C04": dict(cat="fault_enumeration", tech="kill injection at database system calls via strace (signal=KILL on entry to the N-th call), then invariant checks over the file and monitored continuation builds",
              text="One engine build per process; for each build of each history the process is killed before the N-th system call touching the SQLite file or its journal (quick: calls around fdatasync/unlink/lock transitions + random; thorough: every N), then integrity_check, I1 epoch order, I2 dependency ids resolve, I3 every stored (key,value,deps) is the pre-build row or an execution logged by the killed run, I4 three continuation builds under the C01/C02 monitors.",
@@ -30,7 +30,7 @@ CHECKS = {
              note="Only encoder output is decoded; only contract-respecting values are generated; short keys live in std::string SSO storage, so a short over-read there is invisible to ASan; memcheck sees a few thousand cases on the plain flavor.", ref="4/C15"),
  "C16": dict(cat="exploration", tech="runtime monitor over a client-boundary event log of the real lane-based and serial execution queues (TSan and ASan builds), helper-child behaviours, fault injection (bad executables, descriptor exhaustion, SIGUSR1 storm, strace poll->ENOMEM)",
              text="Generated job forests (50..2000 jobs, both priorities, jobs adding jobs, concurrent submitters) x 1/2/3/8 lanes x both schedulers or the serial queue x teardown timing x cancellation; children of one helper binary (0..1 MB on stdout/stderr, exit 0..255, self-signal, early close, lane release, SIGINT-ignoring, environment dump). Offline monitors: each job body exactly once before the destructor returns, bodies in flight <= lanes and one per lane id, processStarted/processFinished/completion exactly once in order with the status of the child's real fate and the exit code preserved, output bytes equal and none after completion, environment precedence, no real pid started after cancelAllJobs() returns, no helper child or thread left at quiescence.",
-             note="Timing windows are sampled, not enumerated; LLBUILD_TEST=1 shortens the SIGKILL escalation; the signal storm spares the harness main thread; connectToConsole is not exercised.", ref="4/C16"),
+             note="Timing windows are sampled, not enumerated; LLBUILD_TEST=1 shortens the SIGKILL escalation; the signal storm spares the harness main thread; connectToConsole children are silent hang children only; the start of the escalation thread can be delayed through a guarded hook.", ref="4/C16"),
  "C17": dict(cat="exploration", tech="differential runtime monitor: generated valid Ninja manifest trees loaded by llbuild (ASan/UBSan) vs the installed ninja 1.11.1 and a reference evaluator written from the manual; shell-quoting round trip through /bin/sh",
              text="Every build statement of every generated manifest tree (scoping, lazy rule variables, escapes, continuations incl. CR LF, include/subninja to depth 3 with shadowing and parent rules, keyword-like identifiers, all bytes 0x80..0xFF, hostile path alphabets) must have the outputs, three input classes, rule, expanded command, description, deps/depfile, pool, flags, rspfile and rspfile_content that ninja shows or, where ninja shows nothing, the reference computes; every quoted path and random byte strings must read back unchanged through /bin/sh -c 'printf %s <escaped>'.",
              note="Only valid manifests inside the property's premises; `default` statements are not build statements and are written literally and not judged; quoting of $in/$out in description and rspfile_content is not judged; ninja-vs-reference disagreements are discarded and counted.", ref="4/C17"),
@@ -44,7 +44,7 @@ CHECKS = {
              text="Each history runs once through BuildEngine/Rule/Task and once only through llb_buildengine_*/llb_task_*; per-build traces on the shared vocabulary must be identical, both runs are monitored (M-proto/M-value/M-justify) and the DB written via the C interface is read back independently.",
              note="Single-use requests, prior values, run reasons and rule signatures do not exist in the C interface; db.h and Swift bindings not covered.", ref="4/C20"),
  "C08": dict(cat="exploration", tech="runtime monitor over real `llbuild buildsystem build` runs: outputs compared with contents predicted for a clean build, cross-checked by real clean builds",
-             text="Generated descriptions and edit histories (sources, outputs, description edits incl. nodes moving between inputs and outputs and sources becoming produced nodes), serial and -j4, each build a new process of the ASan/UBSan binary; after every successful build every reachable output must equal the predicted clean-build bytes.",
+             text="Generated descriptions (shell, phony, mkdir, symlink and archive tools; virtual outputs at any position; symbolic-link outputs) and edit histories (sources, outputs, description edits incl. nodes moving between inputs and outputs, sources becoming produced nodes, archive member lists), serial and -j4, each build a new process of the ASan/UBSan binary; after every successful build every reachable output must equal the predicted clean-build bytes.",
              note="Commands are one deterministic helper whose hash is recomputed in Python; mtimes assigned explicitly; failing builds only counted.", ref="4/C08"),
  "C09": dict(cat="exploration", tech="runtime monitor: null-build run log, single-attribute description pairs (re-run iff relevant), Command::getSignature() observed through the delegate",
              text="Null builds over the C08 workload must run nothing; pairs differing in exactly one of 20 attributes must re-run the command iff the attribute is signature-relevant; signatures of such pairs and of 17 structural near-collisions must differ and be stable across processes.",
@@ -56,8 +56,8 @@ CHECKS = {
              text="A command's undeclared reads (hostile path spellings, absolute/relative to working-directory, existing or missing) are reported through all three deps styles; each discovered path is then edited/deleted/created in turn and the command must re-run (and not re-run on the following null build); malformed files must fail and be retried; generated dependency files must round-trip byte for byte through both parsers.",
              note="NUL/TAB/CR/LF and a leading ':' cannot be expressed by the Makefile format and are not generated.", ref="4/C11"),
  "C12": dict(cat="exploration", tech="runtime monitor: tree edits vs whether the consuming command appears in its own run log, three-valued expectation from the property text",
-             text="Every spelling of a directory-tree / directory-structure input, with and without exclusion patterns, random trees with symlinks and a symlink loop, 16 edit kinds at every depth, new process per build: must re-run / must not re-run / not judged.",
-             note="Directory nodes are named '<path>/'; pattern semantics = libc fnmatch; replace-by-rename under structure nodes and edits of excluded names' existence are not judged.", ref="4/C12"),
+             text="Every spelling of a directory-tree / directory-structure input, with and without exclusion patterns, random trees with symlinks and a symlink loop, 17 edit kinds at every depth (incl. entries added while the directory's own mtime is restored), new process per build: must re-run / must not re-run / not judged.",
+             note="Directory nodes are named '<path>/'; pattern semantics = libc fnmatch; replace-by-rename under structure nodes and additions/removals of excluded names under tree nodes are not judged.", ref="4/C12"),
  "C14": dict(cat="exploration", tech="runtime monitor: FileSystem::remove() calls logged by a wrapping file system + whole-sandbox snapshots, plus a predicate band test",
              text="Histories of expectedOutputs/roots lists across processes: every removal must lie in (previous successful list minus current list) restricted by the roots (liberal reading) and every such path under the conservative reading must be gone; nothing else in the sandbox may change; pathIsPrefixedByPath is tested against a MUST/MUST-NOT band on generated pairs.",
              note="Doubled separators and dot components are judged for safety only.", ref="4/C14"),
